@@ -59,14 +59,23 @@ func udpSessionScenario(c ucfg) *mcx.Scenario {
 				var pc *coapNet.VerifPacketConn
 				var dw *udpw.World
 				raddr := &net.UDPAddr{IP: net.IPv4(10, 0, 0, 1), Port: 5683}
-				handler := func(*responsewriter.ResponseWriter[*client.Conn], *pool.Message) {
+				handler := func(w *responsewriter.ResponseWriter[*client.Conn], _ *pool.Message) {
 					handlerRuns++
+					if c.Op == "close-from-handler" {
+						// the application closes the connection from inside its handler and waits for the done signal there
+						_ = w.Conn().Close()
+						vrt.Recv(w.Conn().Done())
+						return
+					}
 					vrt.WaitUntil("application handler busy", func() bool { return handlerGo })
 				}
 				if c.DTLS {
 					o := udpw.Opts{LimitTotal: 2, LimitEndpoint: 2, QueueSize: 16, DTLS: true}
 					if c.Op == "full-queue" {
 						o.QueueSize, o.Handler = 1, handler
+					}
+					if c.Op == "close-from-handler" {
+						o.Handler = handler
 					}
 					dw = udpw.New(o)
 					cc = dw.CC
@@ -89,6 +98,9 @@ func udpSessionScenario(c ucfg) *mcx.Scenario {
 					cfg.LimitClientParallelRequests, cfg.LimitClientEndpointParallelRequests = 2, 2
 					if c.Op == "full-queue" {
 						cfg.ReceivedMessageQueueSize = 1
+						cfg.Handler = handler
+					}
+					if c.Op == "close-from-handler" {
 						cfg.Handler = handler
 					}
 					cc = client.NewConnWithOpts(session, &cfg)
@@ -123,6 +135,17 @@ func udpSessionScenario(c ucfg) *mcx.Scenario {
 					case "ping":
 						err = cc.Ping(ctx)
 					case "idle":
+						vrt.Recv(cc.Done())
+					case "close-from-handler":
+						m := pool.NewMessage(context.Background())
+						_ = m.SetupGet("/bye", message.Token{0xB1})
+						m.SetType(message.NonConfirmable)
+						m.SetMessageID(7100)
+						raw, errM := m.MarshalWithEncoder(coder.DefaultCoder)
+						if errM != nil {
+							panic(errM)
+						}
+						inject(raw)
 						vrt.Recv(cc.Done())
 					case "full-queue":
 						// the peer keeps sending while the application handler is busy: one message in the handler,
@@ -205,6 +228,9 @@ func udpSessionScenario(c ucfg) *mcx.Scenario {
 func addUDPSessionScenarios(r *ev.Run, scs *[]*mcx.Scenario) {
 	*scs = append(*scs, udpSessionScenario(ucfg{Op: "full-queue", Intr: "close2", Preempt: ev.Pick(r, 1, 2)}))
 	*scs = append(*scs, udpSessionScenario(ucfg{DTLS: true, Op: "full-queue", Intr: "close2", Preempt: ev.Pick(r, 1, 2)}))
+	for _, d := range []bool{false, true} {
+		*scs = append(*scs, udpSessionScenario(ucfg{DTLS: d, Op: "close-from-handler", Intr: "none", Preempt: ev.Pick(r, 1, 2)}))
+	}
 	for _, op := range []string{"do", "observe", "ping", "idle"} {
 		for _, in := range []string{"cancel", "close2", "read-error"} {
 			*scs = append(*scs, udpSessionScenario(ucfg{Op: op, Intr: in, Preempt: ev.Pick(r, 1, 2)}))
